@@ -121,6 +121,16 @@ func verifHarness_C20_time(neg int) {
 	// no sub-microsecond part: the time is exactly us*1000 ns (range where UnixNano is representable: years 1678..2262)
 	inNano := verifAnd(us > -9000000000000000, us < 9000000000000000)
 	verifAssert(verifImplies(inNano, e.Time.UnixNano() == us*1000), "C20/T/no-submicrosecond")
+	// the instant itself, not only its (wrapping) microsecond count: whole seconds since 1970 rounded down, and
+	// the microseconds within that second
+	sec := us / 1000000
+	rem := us % 1000000
+	if rem < 0 {
+		sec--
+		rem += 1000000
+	}
+	verifAssert(e.Time.Unix() == sec, "C20/T/seconds-since-1970")
+	verifAssert(int64(e.Time.Nanosecond()) == rem*1000, "C20/T/microseconds-within-the-second")
 	verifReach("C20/T")
 }
 
